@@ -73,6 +73,16 @@ var vfFwdNames = []string{ //nolint:gochecknoglobals
 	"X-Forwarded-Uri", "X-Forwarded-Path", "X-Forwarded-Method",
 }
 
+// headers other proxies and ingress controllers use for the same purpose, and which heimdall does not document: they
+// must not change the request view for any peer (they are passed on to the upstream like every other client header,
+// so they are taken out of the recorded upstream headers before the comparison)
+var vfLookalikeNames = []string{ //nolint:gochecknoglobals
+	"X-Original-Url", "X-Original-Uri", "X-Original-Method", "X-Original-Host", "X-Rewrite-Url", "X-Http-Method-Override",
+	"X-Method-Override", "X-Forwarded-Port", "X-Forwarded-Scheme", "X-Forwarded-Prefix", "X-Forwarded-Server", "X-Forwarded-Ssl",
+	"X-Forwarded-Protocol", "X-Url-Scheme", "X-Real-Ip", "X-Client-Ip", "True-Client-Ip", "X-Envoy-Original-Path",
+	"X-Envoy-External-Address", "X-Host", "X-Forwarded-Url", "X-Forwarded-Client-Ip",
+}
+
 type vfRuleDef struct {
 	ID      string
 	Prefix  string // path expression is Prefix + "**"
@@ -194,6 +204,11 @@ func vfNewUpstream() *vfUpstream {
 		id := r.Header.Get(vfHdrReq)
 		h := vfUpHit{Method: r.Method, RequestURI: r.RequestURI, Host: r.Host, Header: map[string][]string(r.Header.Clone())}
 		delete(h.Header, vfHdrReq)
+
+		for _, n := range vfLookalikeNames {
+			delete(h.Header, n)
+		}
+
 		u.mu.Lock()
 		u.hits[id] = append(u.hits[id], h)
 		u.n++
@@ -1380,13 +1395,13 @@ var (
 	vfPaths   = []string{"/pub/x", "/pub/docs/readme", "/admin/x", "/sec/data", "/h/y", "/none/z", "/pub/a%20b"}        //nolint:gochecknoglobals
 	vfQueries = []string{"", "", "a=1", "b=2&a=1", "q=%20x"}                                                            //nolint:gochecknoglobals
 
-	vfValMethod = []string{"DELETE", "GET", "POST", "PUT", "PATCH", "delete", "PURGE", ""}                                                                                                                                                 //nolint:gochecknoglobals
-	vfValProto  = []string{"https", "https", "http", "HTTPS", "ftp", ""}                                                                                                                                                                   //nolint:gochecknoglobals
-	vfValHost   = []string{"admin.example.com", "admin.example.com", "evil.example.org", "admin.example.com:443", "app.example.com", "ADMIN.example.com", ""}                                                                              //nolint:gochecknoglobals
-	vfValURI    = []string{"/admin/secret", "/admin/x?role=admin", "/pub/../admin/y", "https://admin.example.com/admin/y?z=1", "/sec/data?b=2&a=1", "/h/z", "%zz", "", "?only=query", "/none/q", "/pub/w%20x?q=%20", "/pub/write?x=1&x=2", "/admin/1,2,3/delete?force=true", "/pub/a,b?ids=4,5&t=x", "/sec/x,/admin/y"} //nolint:gochecknoglobals
-	vfValPath   = []string{"/admin/secret", "/pub/x", "/sec/other", "/h/q", ""}                                                                                                                                                            //nolint:gochecknoglobals
-	vfValXFF    = []string{"127.0.0.1", "10.0.0.1, 192.168.0.1", "::1", "unknown", "203.0.113.7", "10.0.0.1,,", "198.51.100.1,198.51.100.2", ""}                                                                                           //nolint:gochecknoglobals
-	vfValFwd    = []string{"for=127.0.0.1", "for=10.0.0.1;proto=https;host=admin.example.com", "for=1.1.1.1, for=2.2.2.2", "by=3.3.3.3", "FOR=1.2.3.4", `for="[2001:db8::1]:4711"`, "proto=https;for=192.0.2.43;by=203.0.113.60", "proto=http; for=192.0.2.60", "for=192.0.2.61 ; proto=https", "by=203.0.113.60;  for=192.0.2.62", ""}      //nolint:gochecknoglobals
+	vfValMethod = []string{"DELETE", "GET", "POST", "PUT", "PATCH", "delete", "PURGE", ""}                                                                                                                                                                                                                                              //nolint:gochecknoglobals
+	vfValProto  = []string{"https", "https", "http", "HTTPS", "ftp", ""}                                                                                                                                                                                                                                                                //nolint:gochecknoglobals
+	vfValHost   = []string{"admin.example.com", "admin.example.com", "evil.example.org", "admin.example.com:443", "app.example.com", "ADMIN.example.com", ""}                                                                                                                                                                           //nolint:gochecknoglobals
+	vfValURI    = []string{"/admin/secret", "/admin/x?role=admin", "/pub/../admin/y", "https://admin.example.com/admin/y?z=1", "/sec/data?b=2&a=1", "/h/z", "%zz", "", "?only=query", "/none/q", "/pub/w%20x?q=%20", "/pub/write?x=1&x=2", "/admin/1,2,3/delete?force=true", "/pub/a,b?ids=4,5&t=x", "/sec/x,/admin/y"}                 //nolint:gochecknoglobals
+	vfValPath   = []string{"/admin/secret", "/pub/x", "/sec/other", "/h/q", ""}                                                                                                                                                                                                                                                         //nolint:gochecknoglobals
+	vfValXFF    = []string{"127.0.0.1", "10.0.0.1, 192.168.0.1", "::1", "unknown", "203.0.113.7", "10.0.0.1,,", "198.51.100.1,198.51.100.2", ""}                                                                                                                                                                                        //nolint:gochecknoglobals
+	vfValFwd    = []string{"for=127.0.0.1", "for=10.0.0.1;proto=https;host=admin.example.com", "for=1.1.1.1, for=2.2.2.2", "by=3.3.3.3", "FOR=1.2.3.4", `for="[2001:db8::1]:4711"`, "proto=https;for=192.0.2.43;by=203.0.113.60", "proto=http; for=192.0.2.60", "for=192.0.2.61 ; proto=https", "by=203.0.113.60;  for=192.0.2.62", ""} //nolint:gochecknoglobals
 )
 
 func vfCasing(rng *rand.Rand, name string) string {
@@ -1472,6 +1487,33 @@ func vfGenHeaders(rng *rand.Rand, mask int, cfg vfCfg, singleLines bool) []vfHdr
 				v = vfPick(rng, vfValPath)
 			case "X-Forwarded-Method":
 				v = vfPick(rng, vfValMethod)
+			}
+
+			out = append(out, vfHdr{Name: vfCasing(rng, name), Value: v})
+		}
+	}
+
+	if rng.IntN(3) == 0 {
+		for n := 1 + rng.IntN(2); n > 0; n-- {
+			name := vfPick(rng, vfLookalikeNames)
+
+			var v string
+
+			switch {
+			case strings.Contains(name, "Method"):
+				v = vfPick(rng, vfValMethod)
+			case strings.Contains(name, "Host") || strings.Contains(name, "Server"):
+				v = vfPick(rng, vfValHost)
+			case strings.Contains(name, "Ip") || strings.Contains(name, "Address"):
+				v = spoof()
+			case strings.Contains(name, "Scheme") || strings.Contains(name, "Protocol"):
+				v = vfPick(rng, vfValProto)
+			case strings.Contains(name, "Ssl"):
+				v = "on"
+			case strings.Contains(name, "Port"):
+				v = "443"
+			default:
+				v = vfPick(rng, vfValURI)
 			}
 
 			out = append(out, vfHdr{Name: vfCasing(rng, name), Value: v})
